@@ -48,3 +48,75 @@ fn c06_ws_shared_first_on_tick() {
     core::mem::forget(local);
     core::mem::forget(q);
 }
+
+// ---- C03, sequential part for the plain queue: the shared queue's reported length equals the number of items it holds
+/// ... after the pop that consults the shared queue first (every 61st), from any tick value that triggers it
+#[kani::proof]
+#[kani::unwind(6)]
+fn c03_ws_len_after_shared_first_pop() {
+    let q: WorkStealQueue<u8> = WorkStealQueue::new(1, 2);
+    let local = q.local_queue();
+    let t0: u32 = kani::any();
+    kani::assume(t0 == u32::MAX || (t0 + 1).is_multiple_of(61));
+    local.tick.store(t0, Ordering::Release);
+    let pre: u8 = kani::any();
+    kani::assume(pre >= 1 && pre <= 3);
+    let mut i = 0;
+    while i < pre {
+        q.push(10 + i);
+        i += 1;
+    }
+    let got = local.pop();
+    kani::assert(got == Some(10), "the pop whose tick is a multiple of 61 returns the oldest shared item");
+    kani::assert(q.len() == (pre - 1) as usize, "the shared queue's reported length equals the number of items it still holds");
+    // drain through the shared queue's own pop: exactly the rest comes out
+    let mut n = 0u8;
+    let mut k = 0;
+    while k < 4 {
+        if q.pop().is_some() {
+            n += 1;
+        }
+        k += 1;
+    }
+    kani::assert(n == pre - 1, "draining returns exactly the items not yet popped");
+    kani::cover!(pre == 3, "three shared items");
+    core::mem::forget(local);
+    core::mem::forget(q);
+}
+
+/// ... after a full local queue overflows into a shared queue that already holds items
+#[kani::proof]
+#[kani::unwind(6)]
+fn c03_ws_len_after_local_overflow() {
+    let q: WorkStealQueue<u8> = WorkStealQueue::new(1, 2);
+    let local = q.local_queue();
+    let pre: u8 = kani::any();
+    kani::assume(pre <= 2);
+    let mut i = 0;
+    while i < pre {
+        q.push(10 + i);
+        i += 1;
+    }
+    local.push(1);
+    local.push(2);
+    local.push(3); // local capacity 2: half of the local queue and the new item go to the shared queue
+    let in_local = local.len();
+    kani::assert(q.len() + in_local == pre as usize + 3, "after an overflow the shared queue's reported length plus the local items equals everything pushed");
+    let mut n = 0usize;
+    let mut k = 0;
+    while k < 5 {
+        if q.pop().is_some() {
+            n += 1;
+        }
+        k += 1;
+    }
+    kani::assert(n + in_local == pre as usize + 3, "the shared queue really holds what it reports (its pop drains it completely)");
+    let mut k = 0;
+    while k < 2 {
+        _ = local.queue.pop();
+        k += 1;
+    }
+    kani::cover!(pre == 2, "shared queue already held two items");
+    core::mem::forget(local);
+    core::mem::forget(q);
+}
